@@ -38,7 +38,7 @@ package runner
 
 // The diagnosis plugins of a transaction are selected like its remedies (each scoped diagnosis is a fresh object).
 //@ func appendEndpointDiagnoses
-//@   prop C13
+//@   prop C13, C16
 //@   allocates ScopedDiagnosis
 //@   modifies asrc, apos
 //@   loop 1 modifies asrc, apos
@@ -51,7 +51,7 @@ package runner
 //@   ensures[every-enabled] forall(i, 0, len(source), source[i].Enabled ==> len(target) <= apos[i] && apos[i] < len(result) && result[apos[i]] != nil && result[apos[i]].Diagnosis == &source[i])
 
 //@ func appendGlobalDiagnoses
-//@   prop C13
+//@   prop C13, C16
 //@   allocates ScopedDiagnosis
 //@   modifies nothing
 //@   loop 1 modifies nothing
@@ -63,7 +63,7 @@ package runner
 // A diagnosis declared for an endpoint is applied to a transaction only if the method is the declared one and the pattern
 // it was declared on is the pattern the trie matched for the URL.
 //@ func getDiagnoses
-//@   prop C13
+//@   prop C13, C16
 //@   requires policyTree != nil && polValues() && polOwn()
 //@   allocates ScopedDiagnosis
 //@   modifies asrc, apos
@@ -120,7 +120,7 @@ package runner
 //@ ghost func rIsRespNoOp(a actions.RespLunarAction) bool = typeis(a, *actions.NoOpAction)
 
 //@ func runOnRequest
-//@   prop C07
+//@   prop C07, C09
 //@   dispatch ReqLunarAction.ReqPrioritize => *NoOpAction, *EarlyResponseAction, *ModifyRequestAction, *ModifyHeadersAction, *GenerateRequestAction
 //@   ghostlocal acts gmap[int]actions.ReqLunarAction
 //@   allocates any
